@@ -28,7 +28,7 @@ class StopScenario(Exception):
 class Arr:
     """One scratch array driven through a history of syncs / scrubs / damage under a steered clock."""
 
-    def __init__(self, name, tool, shim, model, rng, ndisk, npar, t0, viol, stats):
+    def __init__(self, name, tool, shim, model, rng, ndisk, npar, t0, viol, stats, bs_kib=1, autosave=None, extra_flags=()):
         self.name, self.tool, self.shim, self.model, self.rng = name, tool, shim, model, rng
         self.ndisk, self.npar = ndisk, npar
         self.root = mkscratch('c15arr.')
@@ -36,7 +36,10 @@ class Arr:
         self.pnames = ['parity', '2-parity', '3-parity'][:npar]
         for x in self.disks + ['p%d' % (i + 1) for i in range(npar)] + ['c1', 'c2']:
             os.makedirs(os.path.join(self.root, x))
-        conf = ['blocksize 1']
+        self.bs = bs_kib * 1024
+        self.extra_flags = list(extra_flags)
+        self.tiny = bs_kib > 1          # big blocks: files of a few bytes, one block each
+        conf = ['blocksize %d' % bs_kib] + (['autosave %d' % autosave] if autosave else [])
         for i, pn in enumerate(self.pnames):
             conf.append('%s %s/p%d/parity' % (pn, self.root, i + 1))
         conf += ['content %s/c1/content' % self.root, 'content %s/c2/content' % self.root]
@@ -79,7 +82,7 @@ class Arr:
             env.update(extra_env)
         self.log_n += 1
         lp = os.path.join(self.root, 'log%d' % self.log_n)
-        cmd = [self.tool] + FLAGS + ['-c', os.path.join(self.root, 'conf')] + (['-l', lp] if log else []) + args
+        cmd = [self.tool] + FLAGS + self.extra_flags + ['-c', os.path.join(self.root, 'conf')] + (['-l', lp] if log else []) + args
         r = subprocess.run(cmd, stdout=subprocess.PIPE, stderr=subprocess.STDOUT, env=env, text=True, errors='replace', timeout=120)
         lt = ''
         if log and os.path.exists(lp):
@@ -152,8 +155,8 @@ class Arr:
                 name, data, mt, nblk = copy_of[1], src['data'], src['mtime_ns'], src['nblk']
             else:
                 name = 'b%03d_%s_%02d' % (self.batch, disk, seq[disk])
-                data = self.rng.randbytes(1024 * nblk)
-                mt = (1500000000 + self.batch * 1000 + seq[disk]) * 10 ** 9 + 123456789
+                data = self.rng.randbytes(self.bs * nblk if not self.tiny else (self.bs * (nblk - 1) + self.rng.randrange(1, 4)))
+                mt = (1500000000 + self.batch * 1000 + seq[disk]) * 10 ** 9 + (0 if self.rng.random() < 0.35 else 123456789)
             p = os.path.join(self.root, disk, name)
             open(p, 'wb').write(data)
             os.utime(p, ns=(mt, mt))
@@ -247,12 +250,12 @@ class Arr:
         p = self.path(disk, name)
         f = self.files[(disk, name)]
         with open(p, 'r+b') as fh:
-            fh.seek(idx * 1024)
-            orig = fh.read(1024)
+            fh.seek(idx * self.bs)
+            orig = fh.read(self.bs)
             b = bytearray(orig)
-            j = self.rng.randrange(1024)
+            j = self.rng.randrange(len(orig))
             b[j] ^= self.rng.randrange(1, 256)
-            fh.seek(idx * 1024)
+            fh.seek(idx * self.bs)
             fh.write(b)
         os.utime(p, ns=(f['mtime_ns'], f['mtime_ns']))
         self.silent[(disk, pos)] = orig
@@ -264,7 +267,7 @@ class Arr:
         p = self.path(disk, name)
         f = self.files[(disk, name)]
         with open(p, 'r+b') as fh:
-            fh.seek(idx * 1024)
+            fh.seek(idx * self.bs)
             fh.write(orig)
         os.utime(p, ns=(f['mtime_ns'], f['mtime_ns']))
 
@@ -273,13 +276,13 @@ class Arr:
             return False
         p = os.path.join(self.root, 'p%d' % (level + 1), 'parity')
         with open(p, 'r+b') as fh:
-            fh.seek(pos * 1024)
-            orig = fh.read(1024)
-            if len(orig) != 1024:
+            fh.seek(pos * self.bs)
+            orig = fh.read(self.bs)
+            if len(orig) != self.bs:
                 return False
             b = bytearray(orig)
-            b[self.rng.randrange(1024)] ^= self.rng.randrange(1, 256)
-            fh.seek(pos * 1024)
+            b[self.rng.randrange(self.bs)] ^= self.rng.randrange(1, 256)
+            fh.seek(pos * self.bs)
             fh.write(b)
         self.pcorrupt[(level, pos)] = orig
         return True
@@ -290,28 +293,28 @@ class Arr:
             return False
         p = os.path.join(self.root, 'p%d' % (level + 1), 'parity')
         size = os.path.getsize(p)
-        if cut * 1024 >= size:
+        if cut * self.bs >= size:
             return False
         with open(p, 'r+b') as fh:
-            fh.seek(cut * 1024)
+            fh.seek(cut * self.bs)
             tail = fh.read()
-            fh.truncate(cut * 1024)
+            fh.truncate(cut * self.bs)
         self.ptrunc[level] = (cut, tail)
         return True
 
     def restore_parity_tail(self, level):
         cut, tail = self.ptrunc.pop(level)
         with open(os.path.join(self.root, 'p%d' % (level + 1), 'parity'), 'r+b') as fh:
-            fh.seek(cut * 1024)
+            fh.seek(cut * self.bs)
             fh.write(tail)
 
     def restore_parity(self, level, pos):
         orig = self.pcorrupt.pop((level, pos))
         with open(os.path.join(self.root, 'p%d' % (level + 1), 'parity'), 'r+b') as fh:
-            fh.seek(pos * 1024)
+            fh.seek(pos * self.bs)
             fh.write(orig)
 
-    def change_file(self, disk, name, kind):
+    def change_file(self, disk, name, kind, stamp=None):
         """a file changed since the last sync: new content + new mtime, new mtime only, or gone"""
         key = (disk, name)
         if key in self.changed or key in self.pending:
@@ -320,13 +323,18 @@ class Arr:
         if any((disk, f['start'] + i) in self.silent for i in range(f['nblk'])):
             return False
         p = self.path(disk, name)
+        # the new stamp: the same second or another one, sub-second part 0 / the usual one / another one, never the recorded stamp
+        sec, nsec = divmod(f['mtime_ns'], 10 ** 9)
+        stamps = [(sec + ds) * 10 ** 9 + ns for ds in (0, 0, 0, 5) for ns in (0, 123456789, 987654321) if (ds, ns) != (0, nsec)]
+        newmt = self.rng.choice(stamps) if stamp is None else (sec + stamp[0]) * 10 ** 9 + stamp[1]
         if kind == 'content':
             open(p, 'wb').write(bytes((x ^ 0x5a) for x in f['data']))
-            os.utime(p, ns=(f['mtime_ns'] + 5 * 10 ** 9, f['mtime_ns'] + 5 * 10 ** 9))
+            os.utime(p, ns=(newmt, newmt))
+            self.stats['stamp_grid'].add((nsec == 0, newmt // 10 ** 9 == sec, newmt % 10 ** 9))
         elif kind == 'touch':
-            os.utime(p, ns=(f['mtime_ns'] + 7 * 10 ** 9, f['mtime_ns'] + 7 * 10 ** 9))
+            os.utime(p, ns=(newmt, newmt))
         elif isinstance(kind, tuple):      # ('trunc', k): only the first k blocks are left, mtime kept or not
-            os.truncate(p, kind[1] * 1024)
+            os.truncate(p, kind[1] * self.bs)
             mt = f['mtime_ns'] + (kind[2] if len(kind) > 2 else 0)
             os.utime(p, ns=(mt, mt))
         else:
@@ -424,20 +432,23 @@ class Arr:
         if limit is not None:
             args += ['-L', str(limit)]
         if eio is not None and eio[0] == 'parity':
-            env = {'C15_EIO_PATH': 'p%d/parity' % (eio[1] + 1), 'C15_EIO_OFFSET': str(eio[2] * 1024)}
+            env = {'C15_EIO_PATH': 'p%d/parity' % (eio[1] + 1), 'C15_EIO_OFFSET': str(eio[2] * self.bs)}
         elif eio is not None:
             name, idx = self.owner[eio[0]][eio[1]]
-            env = {'C15_EIO_PATH': '%s/%s' % (eio[0], name), 'C15_EIO_OFFSET': str(idx * 1024)}
+            env = {'C15_EIO_PATH': '%s/%s' % (eio[0], name), 'C15_EIO_OFFSET': str(idx * self.bs)}
         self.stats['eio_scrubs'] += 1 if eio is not None else 0
         self.stats['parity_unreadable_scrubs'] += 1 if (self.ptrunc or (eio is not None and eio[0] == 'parity')) else 0
         self.stats['truncated_file_scrubs'] += 1 if any(isinstance(v, tuple) for v in self.changed.values()) else 0
         self.stats['rehash_scrubs'] += 1 if any(b['rehash'] for b in blocks) else 0
         self.stats['limit_scrubs'] += 1 if limit is not None else 0
+        self.last_out = None
         self.stats['pending_scrubs'] += 1 if any(b['unsynced'] for b in blocks) else 0
         self.stats['deleted_scrubs'] += 1 if any(blocks[pos]['unsynced'] and blocks[pos]['used'] for (d, pos) in self.deleted if pos < len(blocks)) else 0
         self.stats['changed_scrubs'] += 1 if self.changed else 0
         dig0 = self.tree_digest()
         rc, out, lt = self.run(args + ['scrub'], extra_env=env)
+        self.last_out = out
+        self.stats['autosave_scrubs'] += 1 if 'Autosaving' in out else 0
         dig1 = self.tree_digest()
         blocks2, hist2, summ2 = self.status()
         self.stats['scrubs'] += 1
@@ -650,8 +661,8 @@ class Arr:
                 del self.silent[(d, pos)]
         for (l, pos) in list(self.pcorrupt):
             with open(os.path.join(self.root, 'p%d' % (l + 1), 'parity'), 'rb') as fh:
-                fh.seek(pos * 1024)
-                if fh.read(1024) == self.pcorrupt[(l, pos)]:
+                fh.seek(pos * self.bs)
+                if fh.read(self.bs) == self.pcorrupt[(l, pos)]:
                     del self.pcorrupt[(l, pos)]
         return rc
 
@@ -926,6 +937,61 @@ def scenario_deleted(a, rounds, viol):
                 break
 
 
+def scenario_stamps(a, rounds, viol):
+    """the stamp grid of "file changed since the last sync": recorded sub-second part 0 or not, new stamp in the same
+    second or another one with sub-second part 0 / the recorded one / another one, same size, content changed (or not).
+    Every cell must be recognised as a changed file: file errors, no bad mark, words unchanged."""
+    rng = a.rng
+    X, Y = 123456789, 987654321
+    a.add_files([(a.disks[0], 1) for _ in range(12)] + [(a.disks[1], 12)])
+    names = sorted(n for (d, n) in a.files if d == a.disks[0])
+    for i, nm in enumerate(names):          # recorded: alternately nsec 0 and nsec X
+        f = a.files[(a.disks[0], nm)]
+        f['mtime_ns'] = (f['mtime_ns'] // 10 ** 9) * 10 ** 9 + (0 if i % 2 == 0 else X)
+        os.utime(a.path(a.disks[0], nm), ns=(f['mtime_ns'], f['mtime_ns']))
+    a.sync()
+    for rd in range(rounds):
+        cells = [(ds, ns) for ds in (0, 5) for ns in (0, X, Y)]
+        rng.shuffle(cells)
+        per = {0: list(cells), 1: list(cells)}
+        for i, nm in enumerate(names):
+            rec = 0 if i % 2 == 0 else X
+            lst = per[i % 2]
+            while lst and lst[-1] == (0, rec):
+                lst.pop()
+            if not lst:
+                continue
+            cell = lst.pop()
+            a.change_file(a.disks[0], nm, 'content' if rng.random() < 0.8 else 'touch', stamp=cell)
+        a.scrub('full' if rng.random() < 0.6 else 100, None, dt=DAY, tag='stamps')
+        a.heal()
+        a.scrub('full', None, dt=DAY, tag='stamps')
+
+
+def scenario_autosave(a, rounds, viol):
+    """`autosave 1` with 16 MiB blocks and 10 data disks: the scrub saves the content every 5 stripes or so and once more
+    at the end.  Errors before and after the autosave points; what `status` reads back afterwards (the saved words)
+    must be the model's books for the whole run."""
+    rng = a.rng
+    n = rng.randrange(13, 18)
+    spec = [(a.disks[0], 1) for _ in range(n)]
+    for d in a.disks[1:4]:
+        spec += [(d, 1) for _ in range(rng.randrange(0, 4))]
+    a.add_files(spec)
+    a.sync()
+    for rd in range(rounds):
+        # silent errors early, in the middle and in the last stripes
+        for q in set([n - 1, rng.randrange(0, 4), rng.randrange(4, n - 1)] if rd == 0 else [rng.randrange(0, n) for _ in range(2)]):
+            a.corrupt_data(a.disks[0], q)
+        full = rd == 0 or rng.random() < 0.5
+        a.scrub('full' if full else 100, None if full else 0, dt=DAY, tag='autosave')
+        if 'Autosaving' not in (a.last_out or ''):
+            raise HarnessError('the scrub did not autosave: ' + (a.last_out or '')[-300:])
+        a.fix_bad()
+        a.heal()
+        a.scrub('bad', None, dt=DAY, tag='autosave')
+
+
 def install(a, groups, m):
     """give stripe k the time of group groups[k] (0..m), later groups later: group 0 by `-p full` (the others are
     corrupted and become bad, keeping their old time), group j by `scrub -p bad` after restoring its data"""
@@ -950,7 +1016,7 @@ STALE_ERRNO_KEY = 'F-C15-stale-errno-eio'
 def new_stats():
     return {'tool_runs': 0, 'scrubs': 0, 'fixes': 0, 'refused': 0, 'selected_total': 0, 'plans': {}, 'cases': [], 'eio_scrubs': 0,
             'pending_scrubs': 0, 'changed_scrubs': 0, 'deleted_scrubs': 0, 'parity_unreadable_scrubs': 0, 'truncated_file_scrubs': 0,
-            'rehash_scrubs': 0, 'limit_scrubs': 0, 'outcomes': {'verified': 0, 'damaged': 0, 'inconclusive': 0}}
+            'rehash_scrubs': 0, 'limit_scrubs': 0, 'autosave_scrubs': 0, 'stamp_grid': set(), 'outcomes': {'verified': 0, 'damaged': 0, 'inconclusive': 0}}
 
 
 def probe_misc(tool, shim, model_exe, chk, seed):
@@ -1053,7 +1119,7 @@ def probe_wraparound(tool, shim, model_exe, chk, seed):
     Model and binary must agree (the oracle of the property is not consulted: it would refuse these numbers)."""
     import random
     stats = {'tool_runs': 0, 'scrubs': 0, 'fixes': 0, 'refused': 0, 'selected_total': 0, 'plans': {}, 'cases': [], 'eio_scrubs': 0,
-             'pending_scrubs': 0, 'changed_scrubs': 0, 'deleted_scrubs': 0, 'parity_unreadable_scrubs': 0, 'truncated_file_scrubs': 0, 'rehash_scrubs': 0, 'limit_scrubs': 0, 'outcomes': {'verified': 0, 'damaged': 0, 'inconclusive': 0}}
+             'pending_scrubs': 0, 'changed_scrubs': 0, 'deleted_scrubs': 0, 'parity_unreadable_scrubs': 0, 'truncated_file_scrubs': 0, 'rehash_scrubs': 0, 'limit_scrubs': 0, 'autosave_scrubs': 0, 'stamp_grid': set(), 'outcomes': {'verified': 0, 'damaged': 0, 'inconclusive': 0}}
     found = []
 
     def viol(tag, what, replay_obj, kind):
@@ -1235,11 +1301,14 @@ def main(tier, replay=None):
         import random, traceback
         rng = random.Random(seed)
         stats = {'tool_runs': 0, 'scrubs': 0, 'fixes': 0, 'refused': 0, 'selected_total': 0, 'plans': {}, 'cases': [], 'eio_scrubs': 0,
-                 'pending_scrubs': 0, 'changed_scrubs': 0, 'deleted_scrubs': 0, 'parity_unreadable_scrubs': 0, 'truncated_file_scrubs': 0, 'rehash_scrubs': 0, 'limit_scrubs': 0,
+                 'pending_scrubs': 0, 'changed_scrubs': 0, 'deleted_scrubs': 0, 'parity_unreadable_scrubs': 0, 'truncated_file_scrubs': 0, 'rehash_scrubs': 0, 'limit_scrubs': 0, 'autosave_scrubs': 0, 'stamp_grid': set(),
                  'outcomes': {'verified': 0, 'damaged': 0, 'inconclusive': 0}}
         name = '%s%d' % (kind, idx)
         m = Model(model_exe)
-        a = Arr(name, tool, shim, m, rng, ndisk, npar, t0, viol_for(name), stats)
+        if kind == 'autosave':
+            a = Arr(name, tool, shim, m, rng, ndisk, npar, t0, viol_for(name), stats, bs_kib=16384, autosave=1, extra_flags=['--test-io-cache', '1'])
+        else:
+            a = Arr(name, tool, shim, m, rng, ndisk, npar, t0, viol_for(name), stats)
         a.spec = list(spec)
         retry = False
         try:
@@ -1249,6 +1318,10 @@ def main(tier, replay=None):
                 scenario_walk(a, steps, a.viol, rehash=True)
             elif kind == 'deleted':
                 scenario_deleted(a, steps, a.viol)
+            elif kind == 'autosave':
+                scenario_autosave(a, steps, a.viol)
+            elif kind == 'stamps':
+                scenario_stamps(a, steps, a.viol)
             else:
                 scenario_ties(a, steps, a.viol)
         except StopScenario:
@@ -1313,6 +1386,10 @@ def main(tier, replay=None):
     for i in range(nwalk):
         t0 = rng.choice([1700000000, 1700000000, 1000000, 4000000000, 1234567])
         specs.append(('walk', i, rng.getrandbits(48), rng.choice([2, 3, 3, 4]), rng.choice([1, 2, 2, 3]), t0 + rng.randrange(0, 8), wsteps))
+    for i in range(2 if tier == 'quick' else 8):
+        specs.append(('stamps', i, rng.getrandbits(48), 2, rng.choice([1, 2]), 1700000000 + rng.randrange(0, 8), 2))
+    for i in range(2 if tier == 'quick' else 6):
+        specs.append(('autosave', i, rng.getrandbits(48), 10, 1, 1700000000 + rng.randrange(0, 8), 2))
     for i in range(6 if tier == 'quick' else 24):
         specs.append(('rehash', i, rng.getrandbits(48), rng.choice([3, 3, 4]), rng.choice([1, 2]), 1700000000 + rng.randrange(0, 8), 16 if tier == 'quick' else 40))
     for i in range(10 if tier == 'quick' else 40):
@@ -1408,6 +1485,8 @@ def main(tier, replay=None):
         'scrubs_with_truncated_files': sum(s['truncated_file_scrubs'] for s in stats_all),
         'scrubs_with_rehash_marks': sum(s['rehash_scrubs'] for s in stats_all),
         'scrubs_with_error_limit': sum(s['limit_scrubs'] for s in stats_all),
+        'scrubs_with_autosave': sum(s['autosave_scrubs'] for s in stats_all),
+        'changed_file_stamp_grid (recorded nsec is 0, same second, new nsec)': sorted(set(x for s in stats_all for x in s['stamp_grid'])),
         'plans_run': plans, 'stripe_outcomes_on_binary': outc,
         'tie_cut_cases': sum(1 for c in cases if c['tie_cut']), 'cases_with_bad_marks': sum(1 for c in cases if c['bad']),
         'stripes_selected_total': sum(s['selected_total'] for s in stats_all),
